@@ -71,6 +71,14 @@ def _surfaces(tier):
         # the same knot vectors normalised by the library (unit domain again)
         ('norm21', A.shape_desc([A.affine_kv(k(2, 1)[1], 1.0, 2.0), A.affine_kv(k(1, 1)[0], 0.0, 2.0)], [2, 1], True, 3, 'coded', 'coded')),
     ]
+    # data variety: a model in units of 1e-6, one far from the origin, one with a collapsed edge (row u = 0 is one point:
+    # the triangles along it are degenerate) - all facets still have to be written
+    pole = A.shape_desc([k(2, 1)[1], k(1, 1)[1]], [2, 1], True, 3, 'coded', 'coded')                      # 4 x 3
+    pts = A.make_net(pole['sizes'], 3, 'coded')
+    pole['points'] = [pts[0] if n < pole['sizes'][1] else p for n, p in enumerate(pts)]
+    out += [('tiny21', A.shape_desc([k(2, 1)[1], k(1, 1)[0]], [2, 1], True, 3, 'tiny', 'coded')),
+            ('far32', A.shape_desc([k(3, 1)[1], k(2, 1)[0]], [3, 2], False, 3, 'large')),
+            ('pole21', pole)]
     if tier == 'thorough':
         out += [
             ('bil11', A.shape_desc([k(1, 1)[0], k(1, 1)[1]], [1, 1], False, 3, 'coded')),                   # 2 x 3
@@ -144,7 +152,7 @@ def gen_cases(tier, seed):
                 continue
             cases.append(dict(kind='quad', surf=name, shape=d, n=[nu, nv]))
     # ---- exports of single surfaces
-    exp_surfs = [sd for sd in surfs if sd[0] in ('nurbs21', 'bsp32', 'dom21')]
+    exp_surfs = [sd for sd in surfs if sd[0] in ('nurbs21', 'bsp32', 'dom21', 'tiny21', 'far32', 'pole21')]
     exp_pairs = [(2, 2), (3, 4), (5, 3), (4, 4), (5, 5), (6, 5)] if q else \
         [(2, 2), (3, 4), (5, 3), (4, 4), (5, 5), (6, 5), (7, 7), (9, 5), (10, 4), (12, 12), (7, 4), (25, 40)]
     for name, d in exp_surfs:
